@@ -19,7 +19,7 @@ RULE = ("deterministic paths of STV (both modes), SequentialRCV, Plurality, Bord
         "non-trivial = >=2 candidates with weight and >=2 ballots")
 
 RULES = ["STV", "STV1", "SequentialRCV", "Plurality", "Borda", "TopTwo", "Alaska", "DominatingSets", "CondoBorda", "Approval", "utils"]
-REN = {"A": "zed", "B": "Amy", "C": "mid", "D": "Bo"}
+REN = {"A": "Anna", "B": "Ann", "C": "zed", "D": "An"}  # sort order != original order; names contained in one another
 HASHSEEDS = ("0", "1", "2")  # quick uses the first two
 
 
@@ -35,7 +35,7 @@ def cases(tier, seed):
                 if tier == "quick" and (nb == 3 and i % 9 or nb == 2 and i % 4):
                     continue
                 for rule in RULES:
-                    if ties and rule not in ("Plurality", "Borda", "TopTwo", "utils", "Approval"):
+                    if ties and rule not in ("Plurality", "Borda", "TopTwo", "utils", "Approval", "DominatingSets", "CondoBorda"):
                         continue
                     if (i + len(rule)) % 3 and rule not in ("utils", "STV"):
                         continue
@@ -133,6 +133,8 @@ def check_case(case):
     r0, w0 = bl[0]
     variants["first-ballot-split"] = (cands, [(r0, w0 / 3), (r0, w0 * 2 / 3)] + bl[1:])
     variants["first-ballot-split-apart"] = (cands, [(r0, w0 / 4)] + bl[1:] + [(r0, w0 * 3 / 4)])
+    big = F(2000003, 3000001)
+    variants["first-ballot-split-large-denominators"] = (cands, [(r0, w0 * big)] + bl[1:] + [(r0, w0 * (1 - big))])
     variants["candidates-reversed"] = (list(reversed(cands)), bl)
     variants["candidates-rotated"] = (cands[1:] + cands[:1], bl)
     for name, (c2, b2) in variants.items():
